@@ -534,6 +534,8 @@ func assumptionText(tag string) string {
 		return "decimal-contract: github.com/govalues/decimal New/NewFromFloat64/Mul/Add/Float64 are exact, Int64(0) rounds to a nearest integer"
 	case tag == "callbacks-pure":
 		return "callbacks-pure: user callbacks (function values) have no side effects on library state"
+	case tag == "value-pointers":
+		return "value-pointers: a pointer to a scalar, slice or plain struct (*int, *Location, *Paths64, ...) is modelled as its pointee: assumed non-nil and not aliased with another such pointer (call sites in the package pass addresses of distinct locals or fields)"
 	case tag == "receiver-non-nil":
 		return "receiver-non-nil: methods are verified for non-nil receivers (checked at call sites inside the package)"
 	case strings.HasPrefix(tag, "no-contract-callee-havocked:"):
